@@ -34,6 +34,42 @@ Theorem capture : forall s h1 h2,
 Proof. exact capture_l. Qed.
 Print Assumptions capture.
 
+(* ... and what is kept is what is USED: the effect of applying the inverse (exception or returned
+   value, statistics, callback that runs - Model.Config.mv) is the effect of the configuration active
+   at creation, whatever is active at application time, for every probed system (fails). *)
+Theorem capture_effect : forall fails s h1 h2,
+  let i := length (invs (final s h1)) in
+  effects fails (observe s (h1 ++ NewInverse :: h2 ++ [ApplyInverse i])) =
+  effects fails (observe s (h1 ++ NewInverse :: h2)) ++ [Some (mv fails (cur (final s h1)))].
+Proof. exact capture_effect_l. Qed.
+Print Assumptions capture_effect.
+
+(* The effect distinguishes every individual setting (so the correspondence on effects checks each
+   field of the captured record, not the record as a blob): a returned value identifies solver,
+   options and callback; an exception means exactly "the solve failed and solver_throw is set"; a
+   failing probe together with a succeeding probe determine all four settings. *)
+Theorem returned_identifies : forall fails c s o k,
+  mv fails c = Returned s o k -> c_solver c = s /\ c_options c = o /\ c_callback c = k.
+Proof. exact mv_returned_l. Qed.
+Theorem raised_iff : forall fails c,
+  mv fails c = Raised <-> fails (c_solver c) (c_options c) = true /\ c_throw c <> 0%Z.
+Proof. exact mv_raised_l. Qed.
+Theorem effects_determine_every_setting : forall c c',
+  mv all_fail c = mv all_fail c' -> mv none_fail c = mv none_fail c' ->
+  (c_throw c =? 0)%Z = (c_throw c' =? 0)%Z /\ c_solver c = c_solver c' /\
+  c_options c = c_options c' /\ c_callback c = c_callback c'.
+Proof. exact effects_determine_l. Qed.
+Print Assumptions effects_determine_every_setting.
+Theorem solver_throw_visible_when_solve_fails : forall fails c c',
+  fails (c_solver c) (c_options c) = true -> c_solver c' = c_solver c -> c_options c' = c_options c ->
+  (c_throw c =? 0)%Z <> (c_throw c' =? 0)%Z -> mv fails c <> mv fails c'.
+Proof. exact throw_visible_l. Qed.
+Theorem other_settings_visible_when_value_returned : forall fails c c',
+  (fails (c_solver c) (c_options c) = false \/ c_throw c = 0%Z) ->
+  (c_solver c <> c_solver c' \/ c_options c <> c_options c' \/ c_callback c <> c_callback c') ->
+  mv fails c <> mv fails c'.
+Proof. exact others_visible_l. Qed.
+
 (* For every schedule l of the events of all threads, thread t's final state and observations are
    those of its own history run alone. *)
 Theorem thread_isolation : forall l g t,
@@ -59,4 +95,16 @@ Example history_example :
   well_nested h /\
   observe init h = [None; None; Some (mkCfg 0 1 2 0); None; None; Some (mkCfg 0 1 0 0); None;
                     Some (mkCfg 0 1 2 0); Some default_cfg].
+Proof. split; reflexivity. Qed.
+
+(* non-vacuity of the effect layer: created under (solver 1, throw set), applied under throw unset
+   and another callback: the failing solve raises; created with throw unset it returns solver 1's
+   iterate and runs the captured callback 2, not the active callback 3 *)
+Example effect_example :
+  let fails := in_tbl [(1, 0)]%Z in
+  effects fails (observe init [Enter [(SSolver, 1); (SThrow, 1)]%Z; NewInverse; Exit; ApplyInverse 0]) =
+    [None; None; None; Some Raised] /\
+  effects fails (observe init [Enter [(SSolver, 1); (SCallback, 2)]%Z; NewInverse; Exit;
+                               Enter [(SThrow, 1); (SCallback, 3)]%Z; ApplyInverse 0; Exit]) =
+    [None; None; None; None; Some (Returned 1 0 2); None].
 Proof. split; reflexivity. Qed.
